@@ -256,6 +256,8 @@ func runIter(c *core.Ctx, pkg string, pair bool) {
 	c.Doc("foreach", 1, "drain idiom; f once per element; first error returned at once")
 	c.Doc("no-slice-write", 1, "no store into, and no append onto, a caller's slice")
 	c.Doc("state-persists", 1, "a method that assigns its receiver's fields has a pointer receiver (the iterator's progress is not written to a copy)")
+	c.Doc("typed-nil", 1, "no possibly-nil pointer is converted to an iterator interface: the empty sequence is the nil interface, and a nil pointer inside an interface is not nil")
+	typedNilRule(c, pkg)
 
 	// ---- generic rules on every function of the package
 	allFns := c.W.SourceFuncs(pkg)
@@ -2190,5 +2192,191 @@ func kvRules(c *core.Ctx, pkg string) {
 			}
 		}
 		c.Check(ok2, "kv-same-path", name, tn.Pos(), fmt.Sprintf("Key via %s, Value via %s, Next via %s", k, v, nx), "%s", why)
+	}
+}
+
+
+// typedNilRule: nil means empty, and callers test `s != nil` on the interface. A pointer that may be nil, converted to
+// the interface (a helper returning *T whose nil result is returned as Seq), is a non-nil interface around a nil
+// pointer: the caller enters the drain loop and the first Value() dereferences nil. Every conversion of a pointer to an
+// interface with a Next method in the package must convert a pointer known to be non-nil: a fresh object, the
+// receiver, a value tested against nil on the way, a parameter every caller passes such a value for, or the result of
+// a function of the repository all of whose results are such values.
+func typedNilRule(c *core.Ctx, pkg string) {
+	sh := pkgShort(pkg)
+	fns := c.W.SourceFuncs(pkg)
+	inPkg := map[*ssa.Function]bool{}
+	for _, f := range fns {
+		inPkg[f] = true
+	}
+	callersOf := func(target *ssa.Function) (sites []*ssa.CallCommon, closed bool) {
+		closed = target.Object() != nil && !target.Object().Exported() || target.Parent() != nil
+		for _, f := range fns {
+			for _, b := range f.Blocks {
+				for _, in := range b.Instrs {
+					var cc *ssa.CallCommon
+					switch x := in.(type) {
+					case *ssa.Call:
+						cc = &x.Call
+					case *ssa.Go:
+						cc = &x.Call
+					case *ssa.Defer:
+						cc = &x.Call
+					}
+					if cc != nil {
+						if sc := cc.StaticCallee(); sc != nil && (sc == target || sc.Origin() == target) {
+							sites = append(sites, cc)
+							continue
+						}
+					}
+					// any other use of the function (a method value, a function value) opens the set of callers
+					for _, op := range in.Operands(nil) {
+						if op != nil && *op != nil {
+							if f2, ok := (*op).(*ssa.Function); ok && (f2 == target || f2.Origin() == target) {
+								if cc == nil || cc.Value != *op {
+									closed = false
+								}
+							}
+						}
+					}
+				}
+			}
+		}
+		return sites, closed
+	}
+	var nonNil func(v ssa.Value, at *ssa.BasicBlock, depth int, seen map[ssa.Value]bool) bool
+	nonNil = func(v ssa.Value, at *ssa.BasicBlock, depth int, seen map[ssa.Value]bool) bool {
+		if depth > 4 || seen[v] {
+			return seen[v] // a cycle through phis adds nothing
+		}
+		seen[v] = true
+		defer delete(seen, v)
+		// tested against nil on the way: the block is dominated by the non-nil edge of `v != nil` / `v == nil`
+		if at != nil {
+			if refs := v.Referrers(); refs != nil {
+				for _, r := range *refs {
+					bo, ok := r.(*ssa.BinOp)
+					if !ok || bo.Op != token.NEQ && bo.Op != token.EQL {
+						continue
+					}
+					other := bo.Y
+					if other == v {
+						other = bo.X
+					}
+					if k, isK := other.(*ssa.Const); !isK || !k.IsNil() {
+						continue
+					}
+					for _, br := range *bo.Referrers() {
+						iff, isIf := br.(*ssa.If)
+						if !isIf || iff.Block() == nil || len(iff.Block().Succs) != 2 {
+							continue
+						}
+						succ := iff.Block().Succs[0]
+						if bo.Op == token.EQL {
+							succ = iff.Block().Succs[1]
+						}
+						if len(succ.Preds) == 1 && succ.Dominates(at) {
+							return true
+						}
+					}
+				}
+			}
+		}
+		switch x := v.(type) {
+		case *ssa.Alloc, *ssa.FieldAddr, *ssa.IndexAddr, *ssa.MakeClosure, *ssa.Function:
+			return true
+		case *ssa.ChangeType:
+			return nonNil(x.X, at, depth, seen)
+		case *ssa.Phi:
+			for i, e := range x.Edges {
+				if !nonNil(e, x.Block().Preds[i], depth, seen) {
+					return false
+				}
+			}
+			return true
+		case *ssa.Parameter:
+			fn := x.Parent()
+			idx := -1
+			for i, p := range fn.Params {
+				if p == x {
+					idx = i
+				}
+			}
+			if idx == 0 && fn.Signature.Recv() != nil {
+				return true // a method reached through its receiver
+			}
+			target := fn
+			if fn.Origin() != nil {
+				target = fn.Origin()
+			}
+			sites, closed := callersOf(target)
+			if !closed || len(sites) == 0 || idx < 0 {
+				return false
+			}
+			for _, cc := range sites {
+				args := cc.Args
+				if len(args) != len(fn.Params) || !nonNil(args[idx], cc.Value.(interface{ Parent() *ssa.Function }).Parent().Blocks[0], depth+1, seen) {
+					return false
+				}
+			}
+			return true
+		case *ssa.Call:
+			sc := x.Call.StaticCallee()
+			if sc == nil {
+				return false
+			}
+			if sc.Origin() != nil {
+				sc = sc.Origin()
+			}
+			if !inPkg[sc] || sc.Signature.Results().Len() != 1 {
+				return false
+			}
+			n := 0
+			for _, b := range sc.Blocks {
+				if ret, ok := b.Instrs[len(b.Instrs)-1].(*ssa.Return); ok {
+					n++
+					if !nonNil(ret.Results[0], b, depth+1, seen) {
+						return false
+					}
+				}
+			}
+			return n > 0
+		}
+		return false
+	}
+	nSites, bad := 0, 0
+	for _, fn := range fns {
+		for _, b := range fn.Blocks {
+			for _, in := range b.Instrs {
+				mi, ok := in.(*ssa.MakeInterface)
+				if !ok {
+					continue
+				}
+				if _, isPtr := mi.X.Type().Underlying().(*types.Pointer); !isPtr {
+					continue
+				}
+				it, isIface := mi.Type().Underlying().(*types.Interface)
+				if !isIface {
+					continue
+				}
+				hasNext := false
+				for i := 0; i < it.NumMethods(); i++ {
+					if it.Method(i).Name() == "Next" {
+						hasNext = true
+					}
+				}
+				if !hasNext {
+					continue
+				}
+				nSites++
+				if !nonNil(mi.X, b, 0, map[ssa.Value]bool{}) {
+					bad++
+					c.Fail("typed-nil", sh+"."+fnLabel(fn), mi.Pos(), "a pointer that may be nil is converted to the iterator interface: a nil pointer inside an interface is not the nil (= empty) sequence, the caller's `s != nil` test passes and the first Value() dereferences nil")
+				}
+			}
+		}
+	}
+	if bad == 0 {
+		c.Check(nSites > 0, "typed-nil", sh, 0, fmt.Sprintf("%d conversions of a pointer to an iterator interface, each of a pointer known to be non-nil", nSites), "no conversion of a combinator object to the iterator interface found: the census is blind")
 	}
 }
